@@ -80,6 +80,7 @@ def dumpTA (theta : Q) (a : TA) : List String :=
   ++ rList (fun kl => toString kl.1 :: rList (fun l => [renderOLen l]) kl.2) a.sd.ages
   ++ rList (fun kc => [toString kc.1, (a.sd.freq kc.1).render]) a.sd.counts
   ++ rQs (scores a) ++ rQs (sums a)
+  ++ [match mccIndex a with | some i => toString i | none => "-1"]
   ++ rList (fun s => [toString s]) (consensusOrder a.sd theta)
 
 def join (l : List String) : String := " ".intercalate l
